@@ -5,18 +5,24 @@
 //	crstate checkpoint <cfg.json> <behaviours.jsonl> [0 [shard n]]   (C23, CR part: see checkpoint.go)
 //
 // Every behaviour TLC printed is replayed block by block on a real
-// crstate.Committee (instance A).  After every step
+// crstate.Committee (instance A) that is fed and rolled back through its
+// checkpoint.Manager, as in the node.  After every step
 //
 //	C22 (i)  differential oracle on the real code: A (which went through the
 //	         behaviour's rollbacks, and through a rollback sweep to earlier heights
-//	         and back) against instance B that processed only the blocks of the
-//	         current chain: canonical dump of KeyFrame/StateKeyFrame/ProposalKeyFrame
+//	         -- the bounds CRVotingStartHeight+1 / CRVotingStartHeight /
+//	         CRVotingStartHeight-1 of the rollback path among them -- and back)
+//	         against instance B that processed only the blocks of the current
+//	         chain: canonical dump of KeyFrame/StateKeyFrame/ProposalKeyFrame
 //	C22 (ii) the spec's state record against the projection of A
+//	C28      (CR side) the deposit balance invariant of CR.tla on the real
+//	         DepositInfo and the deposit addresses' outputs, after every block
 //	C29      the real checkers (SpecialContextCheck of CRCProposal, review,
-//	         tracking, withdraw, real withdraw, appropriation; CheckDuplicateTx on the
-//	         block) against the spec's verdicts, on the block's transactions and on
-//	         probe transactions around the budget limits; the budget invariants on
-//	         the real state.
+//	         tracking, withdraw -- both payload versions --, real withdraw,
+//	         appropriation; CheckDuplicateTx on the block) against the spec's
+//	         verdicts, on the block's transactions and on probe transactions around
+//	         the budget limits; the budget invariants (payable set included) on
+//	         the real state, also right after a rollback that left something behind.
 package main
 
 import (
@@ -57,6 +63,18 @@ func main() {
 		st := &stats{}
 		n := 0
 		var sample interface{}
+		summary := func() {
+			rep.Summary(n, map[string]interface{}{"mode": "replay", "steps": st.steps, "blocks": st.blocks, "rollbacks": st.rollbacks,
+				"sweep_rollbacks": st.sweeps, "diff_compares": st.compares, "checker_verdicts": st.verdicts,
+				"probe_verdicts": st.probes, "double_withdraw_probes": st.doubleProbes, "txs": st.txs, "agree": st.agree}, sample)
+		}
+		// a rollback that does not return is reported; the rest of this shard is not replayed
+		onHang = func() {
+			summary()
+			rep.Flush()
+			stack.CleanupGlobals()
+			os.Exit(0)
+		}
 		for i, b := range behs {
 			if i%nshard != shard {
 				continue
@@ -68,9 +86,7 @@ func main() {
 				sample = compactBehaviour(b)
 			}
 		}
-		rep.Summary(n, map[string]interface{}{"mode": "replay", "steps": st.steps, "blocks": st.blocks, "rollbacks": st.rollbacks,
-			"sweep_rollbacks": st.sweeps, "diff_compares": st.compares, "checker_verdicts": st.verdicts,
-			"probe_verdicts": st.probes, "double_withdraw_probes": st.doubleProbes, "txs": st.txs, "agree": st.agree}, sample)
+		summary()
 	case "budget":
 		var cases []map[string]interface{}
 		for _, b := range rep.ReadBehaviours(os.Args[3]) {
